@@ -2630,6 +2630,24 @@ func (c *ChannelArbitrator) resolveContract(currentContract ContractResolver) {
 	log.Tracef("ChannelArbitrator(%v): attempting to resolve %T",
 		c.cfg.ChanPoint, currentContract)
 
+	// A contract restored from disk may already be marked resolved: the
+	// resolver checkpointed its final state, but we stopped before removing
+	// it from the log. Finish the removal now, otherwise it would stay in
+	// the set of unresolved contracts forever.
+	if currentContract.IsResolved() {
+		err := c.log.ResolveContract(currentContract)
+		if err != nil {
+			log.Errorf("unable to resolve contract: %v", err)
+		}
+
+		select {
+		case c.resolutionSignal <- struct{}{}:
+		case <-c.quit:
+		}
+
+		return
+	}
+
 	// Until the contract is fully resolved, we'll continue to iteratively
 	// resolve the contract one step at a time.
 	for !currentContract.IsResolved() {
